@@ -122,6 +122,58 @@ def check_protocol(ev, contents):
     return probs
 
 
+def log_calls(ev, contents, rnd):
+    """the numbered calls of one save round of the log in the model's vocabulary (call:copy:bytes); the read-only verification
+    traffic of each temporary (threads, any interleaving) is collapsed to one verify:<i>:0 placed, in copy order, where the model
+    puts it: after the last close, before the first rename"""
+    a, b = rnd
+    idx = {}
+    for i, c in enumerate(contents):
+        idx[c] = i
+        idx[c + '.tmp'] = i
+    out = []
+    verified = set()
+    sizes = []
+    inside = False
+    pending = {}
+    for e in ev:
+        if e['n'] == a:
+            inside = True
+        if not inside or e['op'] == 'KILL' or e['path'] not in idx:
+            continue
+        i = idx[e['path']]
+        if e['n'] > 0:
+            if e['op'] == 'rename' and verified is not None:
+                out += ['verify:%d:0' % k for k in sorted(verified)]
+                verified = None
+            if e['op'] == 'unlink':
+                out.append('unlink:%d:0' % i)
+            elif e['op'] == 'open':
+                out.append(('openexcl:%d:0' if ('CREAT' in e['detail'] and 'EXCL' in e['detail']) else 'open?:%d:0') % i)
+            elif e['op'] in ('write', 'pwrite'):
+                out.append('write:%d:%d' % (i, e['res']))
+                if i == 0:
+                    sizes.append(e['res'])
+            elif e['op'] in ('fsync', 'fdatasync'):
+                out.append('fsync:%d:0' % i)
+            elif e['op'] == 'close':
+                out.append('close:%d:0' % i)
+            elif e['op'] == 'rename':
+                out.append('rename:%d:0' % i)
+            else:
+                out.append('%s:%d:0' % (e['op'], i))
+        elif e['path'].endswith('.tmp'):
+            if e['op'] == 'open':
+                pending[i] = 'open'
+            elif e['op'] == 'read' and e['res'] == 0 and pending.get(i) == 'open':
+                pending[i] = 'eof'
+            elif e['op'] == 'close' and pending.get(i) == 'eof' and verified is not None:
+                verified.add(i)
+        if e['n'] == b:
+            break
+    return out, sizes
+
+
 class KillScenario:
     def __init__(self, tool, shim, root, ncopies, rng, big=False, spec=None):
         self.tool, self.shim, self.root, self.nc = tool, shim, root, ncopies
